@@ -19,6 +19,7 @@ pub fn spec() -> Spec {
         assumptions: &["symbols are built through build_set/build_sym_using_vs (validated by C02)"],
         bounds: |t| json!({"dim1_max_size": 5, "dim2_max_size": t.pick(4, 5), "dim3_max_size": t.pick(3, 4), "V": [1,2,3],
             "dim2_size6_max_two_branched_orbits": t.is_thorough(), "dim3_size4_V": [1,2],
+            "mid": "class representatives of D-sets from the generator: dim 2 sizes 5-10 [6-12], dim 3 sizes 4-7 [8], dim 1 sizes 6-12 [16]; V = {1,2,3} on <= 1 [2] orbits (dim 1: 2); 9 systematic renumberings each",
             "large": "coset symbols of finite Coxeter groups [3,3] [4,3] [5,3] [2,12] [7,2] [3,3,3] [4,3,3] ([3,4,3] thorough) modulo small subgroups, built by the reference Todd-Coxeter, 8-384 (thorough 1152) chambers, 9 systematic renumberings each"}),
     }
 }
@@ -158,6 +159,44 @@ fn large_family(ctx: &mut Ctx) {
     }
 }
 
+/// mid-size family: one representative per class of D-sets (supplied by the crate's generator, which C06
+/// validates), few branched orbits, 9 systematic renumberings each.  Renumbering invariance is what larger
+/// chiral / asymmetric symbols stress; the n! oracle is replaced by the BFS class key.
+fn mid_family(ctx: &mut Ctx) {
+    use rust_dsymbols::dsets::DSet;
+    use rust_dsymbols::generators::dset_generators::DSets;
+    let tier = ctx.tier;
+    for (dim, lo, hi, maxb) in [(2usize, tier.pick(5, 6), tier.pick(10, 12), tier.pick(1, 2)), (3, 4, tier.pick(7, 8), tier.pick(1, 2)), (1, 6, tier.pick(12, 16), 2)] {
+        let mut it = ctx.supply("DSets::new", || Some(DSets::new(dim, hi)));
+        loop {
+            let ds = match it.as_mut().map(|g| ctx.guard(|| g.next())) {
+                Some(Ok(Some(d))) => d,
+                Some(Err(m)) => {
+                    ctx.cap_hit(format!("input supplier DSets::next panicked ({}): the rest of the mid-size family was NOT explored", m));
+                    break;
+                }
+                _ => break,
+            };
+            if ds.size() < lo || !ctx.take() {
+                continue;
+            }
+            let plain = match from_dset(&ds) {
+                Some(p) if p.is_involutive() && p.is_connected() && p.commutes() => p,
+                _ => continue, // C06's business
+            };
+            let rn = systematic_renumberings(plain.n);
+            for_each_branching(&plain.ops, &[1, 2, 3], maxb, &mut |s| {
+                let first = s.relabel(&rn[0].1);
+                for (_, p) in &rn {
+                    let t = s.relabel(p);
+                    check_one(ctx, &t, Some(&first), "mid");
+                    ctx.add("mid_symbols", 1);
+                }
+            });
+        }
+    }
+}
+
 fn run(ctx: &mut Ctx) {
     let tier = ctx.tier;
     let mut fams: Vec<(usize, usize, Vec<usize>, usize)> = vec![];
@@ -182,6 +221,7 @@ fn run(ctx: &mut Ctx) {
         });
     }
     large_family(ctx);
+    mid_family(ctx);
 }
 
 fn replay(ctx: &mut Ctx, case: &Value) {
